@@ -14,7 +14,7 @@ import (
 func init() {
 	register(&Spec{ID: "C15", Title: "The packet queue behaves as a byte FIFO across packet boundaries", Run: runC15,
 		Meta: core.Meta{
-			Explanation: "Clauses of the FIFO property whose truth is in the shape of the code; the step-by-step equality with a flat byte model is not decided. R15.1 (io.Reader / io.Writer clause): in every method of the module with the io.Reader signature the caller's slice is written (operand of copy, of an element store, or handed to a callee that does); PacketQueue.Write hands its slice to WriteBytes. R15.2 (typed read/write sibling table): UintK = Bytes(K/8) + endian.UintK, WriteUintK = make([]byte, K/8) + endian.PutUintK + WriteBytes, IntK/WriteIntK delegate to the unsigned sibling of the same width through a conversion, Byte/WriteByte use one byte, String/WriteString delegate to Bytes/WriteBytes; the package-level `endian` is assigned nowhere after its initialiser. R15.3: Bytes returns only nil/ErrNotEnoughBytes and succeeds only when n bytes were copied (C07 R07.2). R15.4: Reset assigns all four state fields. R15.5: AllPacketsConsumed's answer always depends on the packet index having reached the end of the queue: every non-false answer is a comparison of indexPacket with len(queue), or is computed under such a comparison. R15.6: the live packet size (packetSize()) only sizes NEW packets; free space in the packet being filled is computed from that packet's own header length/body (a size change while a packet is partly filled must not change its capacity). R15.7: DiscardUntilCurrentPosition evaluates its end-of-packet test after the queue was shifted and indexPacket reset, on queue[indexPacket] (the packet under the position). The test includes equality (indexData >= len or == len): a packet consumed exactly to its end is dropped. R15.11: every error return of Bytes lies on the true edge of AllPacketsConsumed() — an empty or exhausted packet in front of further data is stepped over, not reported as the end. R15.12 (E-OWN): every store to Packet.Data in the module assigns nil, a slice allocated by make in the same function, or a slice of the same packet's Data; storing (a slice of) a caller's buffer would make later reads return whatever the caller writes into it afterwards. R15.8: AddPacket changes nothing but recvEOM and queue = append(queue, packet). R15.10: SetPosition stores both of its parameters into indexPacket/indexData on every path (a position obtained from Position() is always a valid position, including the one just behind the last packet). R15.1 also requires that Read asks Bytes for exactly len(p) bytes of its parameter and copies into that parameter. R15.9 = R02.6 (read results are fresh buffers).",
+			Explanation: "Clauses of the FIFO property whose truth is in the shape of the code; the step-by-step equality with a flat byte model is not decided. R15.1 (io.Reader / io.Writer clause): in every method of the module with the io.Reader signature the caller's slice is written (operand of copy, of an element store, or handed to a callee that does); PacketQueue.Write hands its slice to WriteBytes. R15.2 (typed read/write sibling table): UintK = Bytes(K/8) + endian.UintK, WriteUintK = make([]byte, K/8) + endian.PutUintK + WriteBytes, IntK/WriteIntK delegate to the unsigned sibling of the same width through a conversion, Byte/WriteByte use one byte, String/WriteString delegate to Bytes/WriteBytes; the package-level `endian` is assigned nowhere after its initialiser. R15.3: Bytes returns only nil/ErrNotEnoughBytes and succeeds only when n bytes were copied (C07 R07.2). R15.4: Reset assigns all four state fields. R15.5: AllPacketsConsumed's answer always depends on the packet index having reached the end of the queue: every non-false answer is a comparison of indexPacket with len(queue), or is computed under such a comparison. R15.6: the live packet size (packetSize()) only sizes NEW packets; free space in the packet being filled is computed from that packet's own header length/body (a size change while a packet is partly filled must not change its capacity). R15.7: DiscardUntilCurrentPosition evaluates its end-of-packet test after the queue was shifted and indexPacket reset, on queue[indexPacket] (the packet under the position). The test includes equality (indexData >= len or == len): a packet consumed exactly to its end is dropped. R15.11: every error return of Bytes lies on the true edge of AllPacketsConsumed() — an empty or exhausted packet in front of further data is stepped over, not reported as the end. R15.13: every NewPacket call of WriteBytes is guarded by a comparison of indexPacket with len(queue) or by `free bytes == 0` computed from the current packet's own Header.Length. R15.12 (E-OWN): every store to Packet.Data in the module assigns nil, a slice allocated by make in the same function, or a slice of the same packet's Data; storing (a slice of) a caller's buffer would make later reads return whatever the caller writes into it afterwards. R15.8: AddPacket changes nothing but recvEOM and queue = append(queue, packet). R15.10: SetPosition stores both of its parameters into indexPacket/indexData on every path (a position obtained from Position() is always a valid position, including the one just behind the last packet). R15.1 also requires that Read asks Bytes for exactly len(p) bytes of its parameter and copies into that parameter. R15.9 = R02.6 (read results are fresh buffers).",
 			NotDecided:  "Copy arithmetic across packets, discard, fill order and position save/restore semantics are not decided.",
 			Assumptions: []string{"encoding/binary ByteOrder semantics"},
 		}})
@@ -30,6 +30,7 @@ func runC15(r *core.Run) {
 	r.Rule("R15.5", "AllPacketsConsumed depends on the packet index reaching the end of the queue", 1, false)
 	r.Rule("R15.7", "DiscardUntilCurrentPosition drops the packet under the position only, after the shift", 1, false)
 	r.Rule("R15.11", "Bytes reports not-enough-bytes only when every queued packet is consumed", 1, false)
+	r.Rule("R15.13", "WriteBytes opens a packet only when none is under the write index or the current one is full", 2, false)
 	r.Rule("R15.12", "packet bodies are the queue's own memory: Packet.Data is assigned nil, a fresh make, or a slice of itself", 4, false)
 	r.Rule("R15.8", "AddPacket only appends: it neither moves the position nor drops queued packets", 1, false)
 	r.Rule("R15.9", "read results do not alias queue storage", 1, false)
@@ -67,10 +68,11 @@ func runC15(r *core.Run) {
 	c07Bytes15(r, ef)
 	c15Reset(r)
 	c15Consumed(r)
-	c15PacketSize(r)
+	c15PacketSize(r, "R15.6")
 	c15Discard(r, "R15.7")
 	c15BytesFailsOnlyWhenEmpty(r)
 	c15DataOwnership(r)
+	c15NewPacketGuards(r)
 	c15AddPacket(r)
 	c15SetPosition(r)
 	c15ReadExact(r)
@@ -358,7 +360,7 @@ func c15Consumed(r *core.Run) {
 	r.Check(ok, "R15.5", "AllPacketsConsumed: every non-false answer is tied to indexPacket vs len(queue)", fn.Pos(), "all answers compare (or are guarded by a comparison of) indexPacket with len(queue)", why)
 }
 
-func c15PacketSize(r *core.Run) {
+func c15PacketSize(r *core.Run, rule string) {
 	p := r.Prog
 	fPS := p.Field("tds", "PacketQueue", "packetSize")
 	np := p.Func("tds", "", "NewPacket")
@@ -386,7 +388,7 @@ func c15PacketSize(r *core.Run) {
 					good = false
 				}
 			}
-			r.Check(good, "R15.6", key, cc.Pos(), "only passed to NewPacket", "the live packet size is used for something other than sizing a new packet (e.g. the free space of the packet being filled): when the size changes while a packet is partly filled, writes are truncated or run past the packet's body")
+			r.Check(good, rule, key, cc.Pos(), "only passed to NewPacket", "the live packet size is used for something other than sizing a new packet (e.g. the free space of the packet being filled): when the size changes while a packet is partly filled, writes are truncated or run past the packet's body")
 		}
 	}
 }
@@ -644,5 +646,91 @@ func c15DataOwnership(r *core.Run) {
 				r.Check(good, "R15.12", key, st.Pos(), "nil, a fresh make, or a slice of the packet's own Data", "a packet body is set to "+core.Expr(v)+", memory the queue does not own: what is read back later is whatever the owner of that buffer has written into it in the meantime, not the bytes that were written to the queue")
 			}
 		}
+	}
+}
+
+// c15NewPacketGuards: R15.13. WriteBytes opens a new packet only because no packet exists under the write index
+// (a comparison of indexPacket with len(queue)) or because the packet under the index is full (a comparison with 0 of
+// a value computed from that packet's Header.Length). Any other trigger — e.g. the read-side notion "all packets
+// consumed", which is also true for an exactly full last packet — opens a spare packet and the bytes that follow are
+// written out of order.
+func c15NewPacketGuards(r *core.Run) {
+	p := r.Prog
+	fn := p.Func("tds", "PacketQueue", "WriteBytes")
+	np := p.Func("tds", "", "NewPacket")
+	fIdxP := p.Field("tds", "PacketQueue", "indexPacket")
+	fQueue := p.Field("tds", "PacketQueue", "queue")
+	fLen := p.Field("tds", "PacketHeader", "Length")
+	var derives func(v ssa.Value, f *types.Var, d int) bool
+	derives = func(v ssa.Value, f *types.Var, d int) bool {
+		if d > 6 || v == nil {
+			return false
+		}
+		if g, _ := core.FieldLoad(v); g == f {
+			return true
+		}
+		switch x := v.(type) {
+		case *ssa.BinOp:
+			return derives(x.X, f, d+1) || derives(x.Y, f, d+1)
+		case *ssa.Convert:
+			return derives(x.X, f, d+1)
+		case *ssa.Phi:
+			for _, e := range x.Edges {
+				if derives(e, f, d+1) {
+					return true
+				}
+			}
+		case *ssa.Call:
+			if arg, isLen := isLenCall(x); isLen {
+				return derives(arg, f, d+1)
+			}
+		}
+		return false
+	}
+	// calls in fn (and in helpers of the queue it calls with the same receiver) that create a packet
+	n := 0
+	for _, c := range callsTo(fn, np) {
+		n++
+		good := false
+		for _, g := range core.GuardsAt(c.(ssa.Instruction)) {
+			bo, ok := g.Cond.(*ssa.BinOp)
+			if !ok {
+				continue
+			}
+			if (derives(bo.X, fIdxP, 0) && derives(bo.Y, fQueue, 0)) || (derives(bo.Y, fIdxP, 0) && derives(bo.X, fQueue, 0)) {
+				good = true // no packet under the index
+			}
+			if k, isC := core.ConstInt64(bo.Y); isC && k == 0 && derives(bo.X, fLen, 0) {
+				good = true // the packet under the index is full
+			}
+		}
+		r.Check(good, "R15.13", "WriteBytes: a packet is opened only when none is under the index or the current one is full", c.Pos(), "guarded by indexPacket vs len(queue), or by free bytes == 0", "a new packet is appended on a condition that is neither `indexPacket == len(queue)` nor `free bytes of the current packet == 0`: after a write that ended exactly on a packet boundary a spare packet is opened and the following bytes land out of order")
+	}
+	if n == 0 {
+		// packet creation moved into a helper: check the helper's call sites instead
+		for _, c := range core.Calls(fn) {
+			h := core.StaticCallee(c)
+			if h == nil || !core.InModule(h) || len(callsTo(h, np)) == 0 {
+				continue
+			}
+			n++
+			good := false
+			for _, g := range core.GuardsAt(c.(ssa.Instruction)) {
+				bo, ok := g.Cond.(*ssa.BinOp)
+				if !ok {
+					continue
+				}
+				if (derives(bo.X, fIdxP, 0) && derives(bo.Y, fQueue, 0)) || (derives(bo.Y, fIdxP, 0) && derives(bo.X, fQueue, 0)) {
+					good = true
+				}
+				if k, isC := core.ConstInt64(bo.Y); isC && k == 0 && derives(bo.X, fLen, 0) {
+					good = true
+				}
+			}
+			r.Check(good, "R15.13", "WriteBytes: a packet is opened only when none is under the index or the current one is full", c.Pos(), "guarded by indexPacket vs len(queue), or by free bytes == 0", "a new packet is appended on a condition that is neither `indexPacket == len(queue)` nor `free bytes of the current packet == 0`")
+		}
+	}
+	if n == 0 {
+		r.Unknown("R15.13", "WriteBytes: packet creation", fn.Pos(), "no NewPacket call found in WriteBytes or its helpers")
 	}
 }
